@@ -30,6 +30,8 @@ structure Acc where
   st : St
   drv : Driver
   cancelP : List Tid := []
+  /-- sequences whose generator raises instead of returning -/
+  boomP : List Tid := []
   cbSeen : Nat := 0
 
 def parseNat? (s : String) : Option Nat := s.toNat?
@@ -82,12 +84,19 @@ def mailHead (s : St) (t : Tid) (m : Msg) : Option Msg :=
   | some tk => (takeMail tk.tag (awaitSel tk.tag m) s.mail).map (·.1)
   | none => none
 
+/-- is the next action the last `resume` of the program (where a raising generator raises)? -/
+def lastResume (s : St) (t : Tid) : Bool :=
+  match s.tasks[t]? with
+  | some tk => !((tk.prog.drop 1).any (fun st => st.act == .resume))
+  | none => false
+
 /-- may the acceptor advance this action without an observed event? -/
 def silentOK (a : Acc) (t : Tid) (act : Act) : Bool :=
   let cancelled := a.cancelP.contains t
   match act with
+  | .resume => !(a.boomP.contains t && lastResume a.st t)
   | .await m _ => mailHead a.st t m == some m
-  | .flush | .flush1 | .resume => true
+  | .flush | .flush1 => true
   | .connCheck => a.st.conn.up
   | .unslot => !(a.st.owners.contains t)
   | .poll | .sleep => !cancelled
@@ -231,6 +240,10 @@ def handle (a : Option Acc) (toks : List String) : Option Acc × String :=
       | some s' => (some { a with st := s' }, s!"ok {s'.tasks.length - 1}")
       | none => (some a, "reject spawn")
     | none => (some a, "bad-op")
+  | some a, "boom" :: [t] =>
+    match parseNat? t with
+    | some t => (some { a with boomP := t :: a.boomP }, "ok")
+    | none => (some a, "bad-op")
   | some a, "cancel" :: [t] =>
     match parseNat? t with
     | some t => (some { a with cancelP := t :: a.cancelP }, "ok")
@@ -262,7 +275,10 @@ def handle (a : Option Acc) (toks : List String) : Option Acc × String :=
           | _, _, _ => .error "bad-op"
         | ["wfail"] => do
           let a ← advance a t (fun act => match act with | .write _ => true | _ => false) true fuel0
-          match step? a.st (.raise t .comm) with
+          match step? a.st (.env .lose) with
+          | none => throw "write failure: the model's connection is not open"
+          | some s1 =>
+          match step? s1 (.raise t .comm) with
           | some s' => pure { a with st := s' }
           | none => throw "write failure not possible in the model"
         | ["done", res] => doDone a t res
